@@ -46,4 +46,14 @@ static char const copyright_message[] =
 " * DEALINGS IN THE SOFTWARE.\n"
 " */\n\n";
 
+/* Output after the final #endif of every generated assembly file.
+ * Tells the ELF linker that the object does not need an executable stack.
+ * It is placed outside the backend selection so that the note is present
+ * even if the rest of the file is compiled out for the current target. */
+static char const noexecstack_note[] =
+"\n"
+"#if defined(__ELF__)\n"
+"\t.section\t.note.GNU-stack,\"\",%progbits\n"
+"#endif\n";
+
 #endif
